@@ -11,7 +11,7 @@ MIRI = {
     "c16": {"seeds": 4, "params": {"cases": 2, "maxlen": 17}, "timeout_s": 900},
     "c09": {"seeds": 16, "params": {"cases": 2}, "timeout_s": 1500},
     "c10": {"seeds": 48, "params": {"cases": 3}, "timeout_s": 1500},
-    "c05": {"seeds": 16, "params": {"cases": 1}, "timeout_s": 2400},
+    "c05": {"seeds": 16, "params": {"cases": 1}, "timeout_s": 1500},
     "c06": {"seeds": 16, "params": {"cases": 2}, "timeout_s": 2400},
 }
 TSAN = {
@@ -96,6 +96,7 @@ def run_miri(binary, prop, seed, VERIF, TARGET, log):
     ok = 0
     kinds = {}
     evals = 0
+    timed_out = []
     for k, (rc, out, lg) in sorted(outcomes.items()):
         text = open(lg, errors="replace").read()
         kind, msg = classify_miri(text)
@@ -112,7 +113,11 @@ def run_miri(binary, prop, seed, VERIF, TARGET, log):
                                       "small": True, "params": cfg["params"], "index": -1,
                                       "detail": {"miri_seed": k, "message": msg, "log_tail": text[-1500:]}})
             kinds[kind] = kinds.get(kind, 0) + 1
-        elif kind == "unsupported" or rc == "timeout" or (rep is None):
+        elif rc == "timeout":
+            # a scheduler seed under which the interpreted program did not finish in time observed nothing; it is counted
+            # (summary: seeds_timed_out) and makes the run inconclusive only when more than a quarter of the seeds end so
+            timed_out.append(k)
+        elif kind == "unsupported" or (rep is None):
             res["inconclusive"].append(f"miri seed {k}: rc={rc} {kind or ''} {msg}"[:300])
         else:
             if rep.get("violations"):
@@ -125,6 +130,9 @@ def run_miri(binary, prop, seed, VERIF, TARGET, log):
                 pass
             ok += 1
     res["evaluations"] = evals
+    res["summary"]["seeds_timed_out"] = len(timed_out)
+    if len(timed_out) * 4 > cfg["seeds"]:
+        res["inconclusive"].append(f"miri: {len(timed_out)} of {cfg['seeds']} scheduler seeds did not finish within the time limit (seeds {timed_out})")
     res["summary"].update({"seeds_completed_without_report": ok, "reports": kinds, "wall_s": round(time.time() - t0, 1)})
     return res
 
